@@ -117,7 +117,8 @@ def mc_jobs(ctx):
                                     MaxMap=1, NEv=1, NName=1), IDEAL_TAIL, "ok"),
             ("pipeline2", K(NT=2, NS=1, PipeNames='{"sb", "bhs", "bb", "h"}', MaxRecs=2, MaxScope=2, MaxNest=2, NBody=1, NId=1),
              IDEAL_TAIL, "ok"),
-            ("gates2", K(MaxRecs=2, MaxSets=1, MaxNull=1, LgSet="{1, 3}", MaxScope=2, MaxNest=2, NBody=1, NId=1), IDEAL_TAIL, "ok"),
+            ("gates2", K(PipeNames='{"sb", "bhs"}', MaxRecs=2, MaxNull=1, LgSet="{1, 3}", MaxScope=2, MaxNest=2, NBody=1, NId=1),
+             IDEAL_TAIL, "ok"),
             ("as-implemented-gates", K(MaxRecs=2, MaxNull=1, LgSet="{1, 3}", NBody=1, NEv=1, NName=1, Dev=BOTH), ASIMPL_TAIL, "ok"),
         ]
 
